@@ -23,7 +23,7 @@ EXPLANATION = (
 )
 ASSUMPTIONS = [
     "x86-64 assembly: verified through tools/lift_x86_64.py (trusted: its instruction table for movq/xorq/andq/notq/rorq/pushq/popq/cmpq+jge/jmp/ret and the leaq-movslq-addq-jmp* jump-table idiom; System V argument registers, first_round arriving zero-extended in rsi; gas assembling the text it is given; only the Linux/ELF preprocessor variant of prologue/epilogue). The other eleven assembly backends are not covered",
-    "byte operations of the 32-bit bit-sliced backend: add, overwrite, init, copy are proved (thorough tier); the extract family exhausts the solver (bit de-interleaving of symbolic offsets) and ascon_overwrite_with_zeroes hits the CBMC 6.11 union anomaly (state->S[i] = 0 followed by a read through W[]: CBMC reports byte 22 non-zero for offset 12, size 19, while the native exhaustive test over all (offset, size) passes) - these are NOT covered and no alarm is raised for them",
+    "byte operations of the 32-bit bit-sliced backend: init, copy (and, thorough tier, add and overwrite) with symbolic offset/size; overwrite_with_zeroes and the extract family by ENUMERATION of constant (offset, size) pairs - all 861 pairs in the thorough tier, a seed-rotated sample of ~30 in the quick tier - because with symbolic offsets the extract family exhausts the solver and ascon_overwrite_with_zeroes hits the CBMC 6.11 union anomaly (state->S[i] = 0 followed by a read through W[] is reported non-zero for offset 12, size 19, although the same pair passes as constants and natively); add/overwrite of this backend are not in the quick tier",
     "start rounds above 12 are outside the contract (the 32-bit backend forms the pointer RC + 2*first_round, which is only defined up to 12)",
 ]
 TRUSTED = []
@@ -84,14 +84,43 @@ def byteop_groups(cfg, props=("C08",), alias=True):
     return gs
 
 
-def groups(tier):
+ENUM_FNS = ["ascon_overwrite_with_zeroes", "ascon_extract_bytes", "ascon_extract_and_add_bytes", "ascon_extract_and_overwrite_bytes"]
+
+
+def byteop_enum_groups(cfg, tier, seed=0, props=("C08",), prefix="c08"):
+    """byte operations with ENUMERATED constant (offset, size): every pair with offset + size <= 40 in the thorough tier, a
+    seed-rotated sample in the quick tier.  Used for the 32-bit bit-sliced backend, where symbolic offsets through the bit
+    de-interleaving exhaust the solver (extract family) or hit the CBMC union anomaly (overwrite_with_zeroes)."""
+    pairs = [(o, z) for o in range(0, 41) for z in range(0, 41 - o)]
+    if tier == "quick":
+        pairs = [p for i, p in enumerate(pairs) if i % 29 == seed % 29]
     gs = []
+    base = {g.name: g for g in byteop_groups(cfg, props=props)}
+    for f in ENUM_FNS:
+        for sfx in ("", ".alias"):
+            b = base.get("c08.%s.%s%s" % (f, cfg, sfx))
+            if b is None:
+                continue
+            for o, z in pairs:
+                gs.append(Group("%s.%s.%s%s.o%d.s%d" % (prefix, f, cfg, sfx, o, z), list(props), b.harness, b.entry, list(b.srcs), cfg=cfg,
+                                enforce=f, defs=list(b.defs) + ["VERIF_OFFSET=%du" % o, "VERIF_SIZE=%du" % z], contracts=list(b.contracts),
+                                unwind=42, expect_classes=["postcondition", "assigns"], timeout=600, functions=[f]))
+                gs[-1].reach = (o + z) % 7 == 0
+    return gs
+
+
+def groups(tier):
+    import os
+    seed = int(os.environ.get("VERIF_SEED", "0") or 0)
+    gs = []
+    gs += byteop_enum_groups("C32", tier, seed)
+    gs += [g for g in byteop_groups("C32") if any(k in g.name for k in ("ascon_init", "ascon_copy"))]
     for cfg in (["C64", "C32"] if tier == "quick" else ["C64", "C32", "DX"]):
         gs += permute_groups(cfg)
     gs += asm_groups()
     for cfg in (["C64"] if tier == "quick" else ["C64", "DX", "DEF"]):
         gs += byteop_groups(cfg)
     if tier == "thorough":
-        # 32-bit bit-sliced backend: only the operations CBMC 6.11 can decide (see ASSUMPTIONS)
-        gs += [g for g in byteop_groups("C32") if any(k in g.name for k in ("ascon_add_bytes", "ascon_overwrite_bytes", "ascon_init", "ascon_copy"))]
+        # 32-bit bit-sliced backend, symbolic offset and size: the two operations CBMC 6.11 can decide that way
+        gs += [g for g in byteop_groups("C32") if any(k in g.name for k in ("ascon_add_bytes", "ascon_overwrite_bytes"))]
     return gs
